@@ -364,8 +364,17 @@ func tvals(ts []tensor.Tensor) string {
 
 // emitOp runs one operator case and writes it. mkIns must build fresh tensors on every call:
 // one set is run, a pristine one is printed as the input, the run one is printed as "after".
+func attrGallinas(attrs []attr) []string {
+	var out []string
+	for _, a := range attrs {
+		out = append(out, a.gallina())
+	}
+	return out
+}
+
 func emitOp(cw *caseWriter, op string, attrs []attr, mkIns func() []tensor.Tensor) string {
 	ins := mkIns()
+	lastCaseDesc = clip(op+" "+fmt.Sprint(attrGallinas(attrs))+" on "+tvals(ins), 600)
 	obs := observe(op, attrs, ins)
 	sideObservations(op, attrs, mkIns, obs, ins)
 	return writeOpCase(cw, op, attrs, mkIns(), obs, ins)
